@@ -19,6 +19,7 @@ import (
 	"encoding/json"
 	"fmt"
 	"go/ast"
+	"go/constant"
 	"go/parser"
 	"go/token"
 	"go/types"
@@ -82,6 +83,7 @@ func newSynthImporter(base types.Importer) *synthImporter {
 		tn := types.NewTypeName(token.NoPos, p, "T"+tag, nil)
 		types.NewNamed(tn, types.NewStruct(nil, nil), nil)
 		p.Scope().Insert(tn)
+		p.Scope().Insert(types.NewConst(token.NoPos, p, "K"+tag, types.Typ[types.Int], constant.MakeInt64(int64(len(tag)))))
 		p.MarkComplete()
 		s.pkgs[path] = p
 	}
@@ -295,6 +297,61 @@ func impReplay(h []impStep) (fail *impFailure) {
 			refCall(p)
 			cb.End()
 			pkg.RestoreCurFile(old)
+		case "Visit":
+			n++
+			other := impOtherFile(pkg.CurFile().Name())
+			old, _ := pkg.SetCurFile(other, true)
+			files[other] = true
+			pkg.NewFunc(nil, fmt.Sprintf("v%d", n), nil, nil, false).BodyStart(pkg)
+			for _, p := range s.set() {
+				refCall(p)
+			}
+			cb.End()
+			pkg.RestoreCurFile(old)
+		case "RefAt":
+			n++
+			p := s.str()
+			ref := func(kind string) gogen.Ref { return pkg.Import(p).Ref(kind + impTag[p]) }
+			ts := types.Typ[types.String]
+			name := fmt.Sprintf("r%d", n)
+			body := func(f func()) {
+				pkg.NewFunc(nil, name, nil, nil, false).BodyStart(pkg)
+				f()
+				cb.End()
+			}
+			switch s.B {
+			case "param":
+				pkg.NewFunc(nil, name, types.NewTuple(types.NewParam(token.NoPos, pkg.Types, "a", ref("T").Type())), nil, false).BodyStart(pkg).End()
+			case "result":
+				pkg.NewFunc(nil, name, nil, types.NewTuple(types.NewParam(token.NoPos, pkg.Types, "", types.NewPointer(ref("T").Type()))), false).BodyStart(pkg).Val(nil).Return(1).End()
+			case "varvalue":
+				pkg.NewVarStart(token.NoPos, nil, name).Val(ref("F")).EndInit(1)
+			case "livetype":
+				pkg.NewType("T" + name).InitType(pkg, types.NewPointer(ref("T").Type()))
+			case "labeled":
+				body(func() {
+					l := cb.NewLabel(token.NoPos, token.NoPos, "L")
+					cb.Label(l)
+					refCall(p)
+					cb.Goto(l)
+				})
+			case "mapkey":
+				body(func() { cb.VarRef(nil).Val(ref("K")).Val("r").MapLit(types.NewMap(ti, ts), 2).Assign(1).EndStmt() })
+			case "mapvalue":
+				body(func() { cb.VarRef(nil).Val("k").Val(ref("K")).MapLit(types.NewMap(ts, ti), 2).Assign(1).EndStmt() })
+			case "slicekey":
+				body(func() { cb.VarRef(nil).Val(ref("K")).Val("w").SliceLit(types.NewSlice(ts), 2, true).Assign(1).EndStmt() })
+			case "littype":
+				body(func() { cb.VarRef(nil).StructLit(ref("T").Type(), 0, false).Assign(1).EndStmt() })
+			case "funclit":
+				body(func() {
+					cb.VarRef(nil).NewClosure(nil, nil, false).BodyStart(pkg)
+					refCall(p)
+					cb.End().Assign(1).EndStmt()
+				})
+			default:
+				panic("harness: reference position " + s.B)
+			}
 		case "VarAdd":
 			n++
 			p := s.str()
@@ -373,6 +430,10 @@ func impSig(s impStep) string {
 		return "Var(other)"
 	case "Write", "SetCur":
 		return s.Op
+	case "RefAt":
+		return "RefAt(" + s.B + ")"
+	case "Visit":
+		return fmt.Sprintf("Visit(%d refs)", len(s.set()))
 	}
 	return s.Op
 }
@@ -397,8 +458,10 @@ func impRecompute(h []impStep) []impStep {
 			decls = append(decls, decl{cur, s.set(), true})
 		case "TypeDel":
 			decls = append(decls, decl{cur, []string{s.str()}, false})
-		case "Cross", "VarAdd":
+		case "Cross", "VarAdd", "RefAt":
 			decls = append(decls, decl{cur, []string{s.str()}, true})
+		case "Visit":
+			decls = append(decls, decl{impOtherFile(cur), s.set(), true})
 		case "Force":
 			forced[cur][s.str()] = true
 		}
@@ -521,9 +584,15 @@ type impConf struct {
 	cfg  string
 }
 
-func impCfg(maxOps int, paths, names, binds, ops, pathSets string) string {
-	return fmt.Sprintf("SPECIFICATION Spec\nCONSTANTS\n  Files = {\"\", \"b.go\"}\n  Paths = %s\n  Names = %s\n  Binds = %s\n  MaxOps = %d\n  Ops = %s\n  PathSets = %s\nINVARIANTS BlockDisjoint OnlyOwnFile EmitInv\nCHECK_DEADLOCK FALSE\n",
-		paths, names, binds, maxOps, ops, pathSets)
+const impAllPositions = `{"param","result","varvalue","livetype","labeled","mapkey","mapvalue","slicekey","littype","funclit"}`
+
+func impCfg(maxOps int, paths, names, binds, ops, pathSets string, positions ...string) string {
+	pos := `{"mapkey"}`
+	if len(positions) > 0 {
+		pos = positions[0]
+	}
+	return fmt.Sprintf("SPECIFICATION Spec\nCONSTANTS\n  Files = {\"\", \"b.go\"}\n  Paths = %s\n  Names = %s\n  Binds = %s\n  MaxOps = %d\n  Ops = %s\n  PathSets = %s\n  Positions = %s\nINVARIANTS BlockDisjoint OnlyOwnFile EmitInv\nCHECK_DEADLOCK FALSE\n",
+		paths, names, binds, maxOps, ops, pathSets, pos)
 }
 
 func runC09(tier, replay string) {
@@ -573,6 +642,8 @@ func runC09(tier, replay string) {
 		{"discard-write-ref-5", impCfg(5, `{"a/x"}`, `{"x"}`, `{""}`, `{"Func","Discard","Write","Var"}`, `{{"a/x"}}`)},
 		{"two-files-cross-4", impCfg(4, `{"a/x","c/y"}`, `{"x"}`, `{""}`, `{"SetCur","Func","Cross","Write","Force"}`, `{{"a/x"},{"c/y"}}`)},
 		{"growing-var-block-5", impCfg(5, `{"a/x","c/y"}`, `{"x"}`, `{""}`, `{"VarAdd","Write","SetCur","Func"}`, `{{"a/x"}}`)},
+		{"visit-restore-4", impCfg(4, `{"a/x","c/y"}`, `{"x"}`, `{""}`, `{"SetCur","Func","Visit","Write"}`, `{{"a/x"},{"c/y"}}`)},
+		{"reference-positions-3", impCfg(3, `{"a/x","c/y"}`, `{"x"}`, `{""}`, `{"RefAt","Func","Write","SetCur"}`, `{{"a/x"}}`, impAllPositions)},
 		{"names-4", impCfg(4, `{"a/x","b/x"}`, `{"x","x1","x2"}`, `{"","param:x","local:x1"}`, `{"Func","Var","Write"}`, `{{"a/x"},{"a/x","b/x"}}`)},
 	}
 	if tier == "thorough" {
@@ -581,6 +652,8 @@ func runC09(tier, replay string) {
 			{"discard-write-ref-7", impCfg(7, `{"a/x"}`, `{"x"}`, `{""}`, `{"Func","Discard","Write","Var"}`, `{{"a/x"}}`)},
 			{"two-files-cross-6", impCfg(6, `{"a/x","c/y"}`, `{"x"}`, `{""}`, `{"SetCur","Func","Cross","Write","Force"}`, `{{"a/x"},{"c/y"}}`)},
 			{"growing-var-block-7", impCfg(7, `{"a/x","c/y"}`, `{"x"}`, `{""}`, `{"VarAdd","Write","SetCur","Func"}`, `{{"a/x"}}`)},
+			{"visit-restore-6", impCfg(6, `{"a/x","c/y"}`, `{"x"}`, `{""}`, `{"SetCur","Func","Visit","Write"}`, `{{"a/x"},{"c/y"}}`)},
+			{"reference-positions-4", impCfg(4, `{"a/x","c/y"}`, `{"x"}`, `{""}`, `{"RefAt","Func","Write","SetCur","Discard"}`, `{{"a/x"}}`, impAllPositions)},
 			{"names-6", impCfg(6, `{"a/x","b/x"}`, `{"x","x1","x2"}`, `{"","param:x","local:x1"}`, `{"Func","Var","Write"}`, `{{"a/x"},{"a/x","b/x"}}`)},
 			{"typedel-force-5", impCfg(5, `{"a/x","c/y"}`, `{"x"}`, `{""}`, `{"Func","TypeDel","Force","Write","SetCur"}`, `{{"a/x"},{"c/y"}}`)},
 		}
